@@ -12,6 +12,9 @@ trait Elem: PartialOrd + Copy + Num + NumCast + Debug + Send + Sync + 'static {
     const NAME: &'static str;
     fn from_i(v: i64) -> Self;
     fn nan() -> Option<Self>;
+    /// largest / smallest value of the type (+-inf for floats)
+    fn top() -> Self;
+    fn bottom() -> Self;
 }
 impl Elem for f64 {
     const NAME: &'static str = "f64";
@@ -20,6 +23,12 @@ impl Elem for f64 {
     }
     fn nan() -> Option<Self> {
         Some(f64::NAN)
+    }
+    fn top() -> Self {
+        f64::INFINITY
+    }
+    fn bottom() -> Self {
+        f64::NEG_INFINITY
     }
 }
 impl Elem for f32 {
@@ -30,6 +39,12 @@ impl Elem for f32 {
     fn nan() -> Option<Self> {
         Some(f32::NAN)
     }
+    fn top() -> Self {
+        f32::INFINITY
+    }
+    fn bottom() -> Self {
+        f32::NEG_INFINITY
+    }
 }
 impl Elem for i32 {
     const NAME: &'static str = "i32";
@@ -39,6 +54,12 @@ impl Elem for i32 {
     fn nan() -> Option<Self> {
         None
     }
+    fn top() -> Self {
+        i32::MAX
+    }
+    fn bottom() -> Self {
+        i32::MIN
+    }
 }
 impl Elem for i64 {
     const NAME: &'static str = "i64";
@@ -47,6 +68,12 @@ impl Elem for i64 {
     }
     fn nan() -> Option<Self> {
         None
+    }
+    fn top() -> Self {
+        i64::MAX
+    }
+    fn bottom() -> Self {
+        i64::MIN
     }
 }
 
@@ -99,6 +126,26 @@ fn word_to_vec<T: Elem>(rel: &[i8]) -> Vec<T> {
     v
 }
 
+/// second realisation of the same relation word: every occurrence of the largest value becomes
+/// the type's top (+inf / MAX), of the smallest the bottom (-inf / MIN); all relations are kept
+fn word_to_vec_extreme<T: Elem>(rel: &[i8]) -> Vec<T> {
+    let mut levels = vec![0i64];
+    let mut acc = 0i64;
+    for &r in rel {
+        acc += match r {
+            -1 => 1,
+            0 => 0,
+            _ => -1,
+        };
+        levels.push(acc);
+    }
+    let (mx, mn) = (*levels.iter().max().unwrap(), *levels.iter().min().unwrap());
+    levels
+        .iter()
+        .map(|&l| if l == mx && mx != mn { T::top() } else if l == mn && mx != mn { T::bottom() } else if mx == mn { T::top() } else { T::from_i(l) })
+        .collect()
+}
+
 fn show(rel: &[i8]) -> String {
     rel.iter()
         .map(|r| match r {
@@ -110,9 +157,18 @@ fn show(rel: &[i8]) -> String {
 }
 
 fn check_word<T: Elem>(rel: &[i8], out: &mut JobOut, states: &mut BTreeSet<(MonoSpec, MonoSpec, i8)>) {
-    let v: Vec<T> = word_to_vec(rel);
+    check_word_real::<T>(rel, false, out, states);
+    if !rel.is_empty() {
+        check_word_real::<T>(rel, true, out, states);
+    }
+}
+
+fn check_word_real<T: Elem>(rel: &[i8], extreme: bool, out: &mut JobOut, states: &mut BTreeSet<(MonoSpec, MonoSpec, i8)>) {
+    let v: Vec<T> = if extreme { word_to_vec_extreme(rel) } else { word_to_vec(rel) };
     let want = mono_spec(rel);
     for (form, got) in observe(&v) {
+        let form = if extreme { format!("{form}/extreme-values") } else { form.to_string() };
+        let form = form.as_str();
         out.evals += 1;
         out.transitions += rel.len() as u64;
         match got {
@@ -126,7 +182,7 @@ fn check_word<T: Elem>(rel: &[i8], out: &mut JobOut, states: &mut BTreeSet<(Mono
                             ("type", Json::str(T::NAME)),
                             ("relations", Json::str(&show(rel))),
                             ("storage", Json::str(form)),
-                            ("vector", Json::str(&format!("{v:?}"))),
+                            ("vector", Json::str(&format!("{:?}{}", &v[..v.len().min(40)], if v.len() > 40 { " .." } else { "" }))),
                             ("expected", Json::str(&format!("{want:?}"))),
                             ("observed", Json::str(&format!("{g:?}"))),
                         ]),
@@ -179,6 +235,10 @@ enum Job {
     Nan { len: usize, prefix: Vec<i8> },
     /// long words: base letter, length, <= 2 deviations, and NaN at every position
     Long { len: usize, base: i8 },
+    /// run-structured words of this length: every word of two runs (boundary anywhere) and of three
+    /// runs (all boundaries when `all3`, else first or last run <= 40 and the other boundary anywhere
+    /// near a multiple of 32 or the ends)
+    Runs { len: usize, all3: bool },
 }
 
 impl Job {
@@ -187,6 +247,7 @@ impl Job {
             Job::Words { len, prefix } => format!("words:len{len}:{}", show(prefix)),
             Job::Nan { len, prefix } => format!("nan:len{len}:{}", show(prefix)),
             Job::Long { len, base } => format!("long:len{len}:{}", show(&[*base])),
+            Job::Runs { len, all3 } => format!("runs:len{len}:{}", if *all3 { "all" } else { "selected" }),
         }
     }
 }
@@ -274,6 +335,50 @@ fn long_check<T: Elem>(len: usize, base: i8, out: &mut JobOut, states: &mut BTre
     }
 }
 
+fn runs_check<T: Elem>(len: usize, all3: bool, out: &mut JobOut, states: &mut BTreeSet<(MonoSpec, MonoSpec, i8)>) {
+    let letters = [-1i8, 0, 1];
+    let mut w = vec![0i8; len];
+    // two runs
+    for &a in &letters {
+        for &b in &letters {
+            if a == b {
+                continue;
+            }
+            for i in 1..len {
+                w[..i].fill(a);
+                w[i..].fill(b);
+                check_word_real::<T>(&w, false, out, states);
+            }
+        }
+    }
+    // three runs
+    let near = |p: usize| p % 32 <= 1 || p % 32 == 31 || p <= 40 || p + 40 >= len;
+    for &a in &letters {
+        for &b in &letters {
+            for &c in &letters {
+                if a == b || b == c {
+                    continue;
+                }
+                for i in 1..len {
+                    for j in i + 1..len {
+                        if !all3 {
+                            let short_first = i <= 40;
+                            let short_last = len - j <= 40;
+                            if !((short_first && near(j)) || (short_last && near(i))) {
+                                continue;
+                            }
+                        }
+                        w[..i].fill(a);
+                        w[i..j].fill(b);
+                        w[j..].fill(c);
+                        check_word_real::<T>(&w, false, out, states);
+                    }
+                }
+            }
+        }
+    }
+}
+
 fn body(ctx: &Ctx) -> (Summary, Meta) {
     let quick = ctx.quick();
     let maxlen = if quick { 12 } else { 13 };
@@ -298,14 +403,24 @@ fn body(ctx: &Ctx) -> (Summary, Meta) {
         }
     }
     let longs: Vec<usize> = if quick {
-        vec![15, 16, 17, 31, 32, 33, 63, 64, 65, 100]
+        vec![15, 16, 17, 31, 32, 33, 63, 64, 65, 100, 127, 128, 129, 200, 256, 257]
     } else {
-        (14..=130).collect()
+        let mut v: Vec<usize> = (14..=130).collect();
+        v.extend([191, 192, 193, 200, 255, 256, 257, 300, 511, 512, 513, 1023, 1024, 1025]);
+        v
     };
     for &len in &longs {
         for base in [-1i8, 0, 1] {
             jobs.push(Job::Long { len, base });
         }
+    }
+    let runs_short: Vec<usize> = if quick { vec![20, 33, 64, 65] } else { (14..=80).collect() };
+    for &len in &runs_short {
+        jobs.push(Job::Runs { len, all3: true });
+    }
+    let runs_long: Vec<usize> = if quick { vec![129, 1023, 1039] } else { vec![129, 200, 257, 1022, 1023, 1024, 1039, 1055, 2047, 2080] };
+    for &len in &runs_long {
+        jobs.push(Job::Runs { len, all3: false });
     }
     let all_states = std::sync::Mutex::new(BTreeSet::new());
     let mut sum = run_jobs(ctx, "monotonic", &jobs, |j| j.key(), |j| {
@@ -339,6 +454,12 @@ fn body(ctx: &Ctx) -> (Summary, Meta) {
                 long_check::<f64>(*len, *base, &mut out, &mut st);
                 long_check::<i32>(*len, *base, &mut out, &mut st);
             }
+            Job::Runs { len, all3 } => {
+                runs_check::<f64>(*len, *all3, &mut out, &mut st);
+                if *len <= 300 {
+                    runs_check::<i64>(*len, *all3, &mut out, &mut st);
+                }
+            }
         }
         if out.sample.is_none() {
             out.sample = Some(Json::str(&j.key()));
@@ -352,7 +473,7 @@ fn body(ctx: &Ctx) -> (Summary, Meta) {
         sum.total.outcome(format!("impl={g:?},spec={w:?}"));
     }
     let meta = Meta {
-        rule: "every relation word over {<,=,>} up to the length bound, realised as prefix sums for f64/f32/i32/i64, each as contiguous array, every-2nd-element view of a poisoned array and reversed view; every non-empty NaN mask on every word up to the NaN bound (f64, f32); long words (one base relation + <= 2 deviations; NaN at every position). Oracle: classifier written from the statement (counts of <,=,>); NaN: never Rising. states = distinct (implementation result, spec class, last relation) triples reached = reachable states of the product of the implementation automaton and the spec automaton. Non-trivial = word of length >= 2 or NaN vector.".into(),
+        rule: "every relation word over {<,=,>} up to the length bound, realised as prefix sums for f64/f32/i32/i64, each as contiguous array, every-2nd-element view of a poisoned array and reversed view; every non-empty NaN mask on every word up to the NaN bound (f64, f32); long words (one base relation + <= 2 deviations; NaN at every position); run-structured words (every word of 2 runs, and of 3 runs with all / selected boundaries) up to length 2080; every word also realised with the type's extreme values (+-inf, MIN/MAX) in place of its largest and smallest level. Oracle: classifier written from the statement (counts of <,=,>); NaN: never Rising. states = distinct (implementation result, spec class, last relation) triples reached = reachable states of the product of the implementation automaton and the spec automaton. Non-trivial = word of length >= 2 or NaN vector.".into(),
         bounds: format!("relation words of length 0..{maxlen} (exhaustive: {} words); NaN masks on words of length <= {nanmax}; long words of lengths {:?}{}", (0..=maxlen).map(|l| 3u64.pow(l as u32)).sum::<u64>(), if quick { longs.clone() } else { vec![14, 130] }, if quick { "" } else { " (every length in the closed interval)" }),
         assumptions: vec![],
         extra: vec![("product_states".into(), Json::Arr(st.iter().map(|(g, w, l)| Json::str(&format!("{g:?}/{w:?}/{l}"))).collect()))],
